@@ -255,7 +255,7 @@ func runDisp(rec *Rec, sc *DispScenario, n int) {
 	// hooks that run after the caller has its answer (post-write stages on the server) are complete once a
 	// graceful close of both peers has returned: it waits for every running handler context
 	cd := make(chan struct{})
-	go func() { cli.Close(); srv.Close(); close(cd) }()
+	go func() { srv.Close(); cli.Close(); close(cd) }() // the server first: its sessions are still indexed, so Close waits for their handlers
 	select {
 	case <-cd:
 	case <-time.After(2 * time.Second):
